@@ -136,10 +136,10 @@ func (e *vfStreamEnd) Write(p []byte) (int, error) {
 		return 0, &net.OpError{Op: "write", Net: "vf", Err: vfTimeoutErr{}}
 	}
 	o := s.ends[1-e.idx]
+	e.wrote = append(e.wrote, p...)
 	if o.closed {
 		return 0, &net.OpError{Op: "write", Net: "vf", Err: io.ErrClosedPipe}
 	}
-	e.wrote = append(e.wrote, p...)
 	if e.edit == nil {
 		e.deliver(p)
 	} else {
